@@ -513,14 +513,18 @@ func (st *State) runAll() {
 					alts = append(alts, int64(t.id))
 				}
 			}
-			for _, t := range st.armedTimers() {
-				alts = append(alts, int64(-1-t.id))
+			// a timer firing while threads could still run counts as one preemption
+			if st.preempts < st.eng.cfg.Preempt || st.eng.cfg.Preempt < 0 {
+				for _, t := range st.armedTimers() {
+					alts = append(alts, int64(-1-t.id))
+				}
 			}
 			id := int(alts[0])
 			if len(alts) > 1 {
 				id = int(st.decide("sched", alts))
 			}
 			if id < 0 {
+				st.preempts++
 				st.fire(st.timers[-1-id])
 				continue
 			}
@@ -528,13 +532,14 @@ func (st *State) runAll() {
 			if curEnabled && next != st.cur {
 				st.preempts++
 			}
-		} else if ts := st.armedTimers(); len(ts) > 0 {
+		} else if ts := st.armedTimers(); len(ts) > 0 && (st.preempts < st.eng.cfg.Preempt || st.eng.cfg.Preempt < 0) {
 			alts := []int64{int64(next.id)}
 			for _, t := range ts {
 				alts = append(alts, int64(-1-t.id))
 			}
 			id := int(st.decide("sched", alts))
 			if id < 0 {
+				st.preempts++
 				st.fire(st.timers[-1-id])
 				continue
 			}
